@@ -828,6 +828,8 @@ impl Database {
         // by a separate write two writers presenting the same base version could both pass
         // the check, and an acknowledged write could be overwritten from a stale read.
         let new_version = {
+            #[cfg(nundb_verif)]
+            crate::verif_hooks::yield_point("map.write");
             let mut db = self.map.write().unwrap();
             match db.get(&change.key).cloned() {
                 Some(old_version) => {
